@@ -207,7 +207,7 @@ def gen_script(rnd, k):
     cards = g.cards()
     tags = set()
     kind = g.weighted([(6, "plain"), (3, "define-fun"), (2, "swap-let"), (2, "def-capture"), (2, "let-capture"),
-                       (1, "def-shadow"), (2, "get-value"), (2, "stack"), (2, "chain")])
+                       (1, "def-shadow"), (2, "get-value"), (2, "stack"), (2, "chain"), (2, "rebind-let")])
     nform = g.weighted([(5, 1), (3, 2), (1, 3)]) if kind != "stack" else rnd.randint(2, 4)
     forms = [g.term(BOOL) for _ in range(nform)]
     ns = set()
@@ -318,6 +318,39 @@ def gen_script(rnd, k):
                     w.name(x[0]), w.name(y[0]), w.name(y[0]), w.name(x[0]), w.term(swapped)))
             else:
                 body_lines.append("(assert %s)" % w.term_with_lets(f, ns))
+    elif kind == "rebind-let":
+        # (let ((A e1)) (let ((A e2) (B A)) F[A, B]))  ==  F[e2', e1]: the bindings of the inner let are simultaneous, so
+        # B is the OUTER A (bound by the enclosing let, or a parameter of a definition), not e2
+        f = forms[0]
+        bytype = {}
+        for s_ in reffv(f):
+            if not is_fun(s_[1]) and not is_arr(s_[1]):
+                bytype.setdefault(s_[1], []).append(s_)
+        pairs = [v for v in bytype.values() if len(v) >= 2]
+        if B.ops_of(f) & {"FORALL", "EXISTS"} or not pairs:
+            body_lines.append("(assert %s)" % w.term_with_lets(f, ns))
+        else:
+            x, y = sorted(rnd.choice(pairs), key=repr)[:2]
+            T = x[1]
+            fresh = rnd.random() < 0.6
+            A, Bn = ("rb!A", "rb!B") if fresh else (x[0], y[0])
+            f2 = names.rename(names.rename(f, {x[0]: "\0a"}), {y[0]: Bn})
+            f2 = names.rename(f2, {"\0a": A})
+            e1, e2 = g.term(T, 1), g.term(T, 2)
+            if rnd.random() < 0.5:
+                e2 = app("ITE", g.term(BOOL, 1), sym(A, T), e2)        # e2 mentions the outer A
+            extra_decl_forms += [e1, e2] if fresh else [e1, e2, sym(*x), sym(*y)]
+            if fresh:
+                # A occurs free in e2 only as the let-bound name: nothing to declare for it
+                extra_decl_forms = [names.rename(z, {A: x[0]}) for z in extra_decl_forms]
+            inner = "(let ((%s %s) (%s %s)) %s)" % (w.name(A), w.term(e2), w.name(Bn), w.name(A), w.term(f2))
+            if rnd.random() < 0.5:
+                tags.add("let-rebinds-let-bound-name")
+                body_lines.append("(assert (let ((%s %s)) %s))" % (w.name(A), w.term(e1), inner))
+            else:
+                tags.add("let-rebinds-parameter")
+                body_lines.append("(define-fun rbdef ((%s %s)) Bool %s)" % (w.name(A), sort_text(T), inner))
+                body_lines.append("(assert (rbdef %s))" % w.term(e1))
     elif kind in ("def-capture", "let-capture", "def-shadow"):
         # Q v:T. B(v, c)  with c a global of sort T
         T = g.choice([INT, REAL, BV(2), BOOL])
